@@ -7,7 +7,12 @@ require (
 	github.com/containerd/stargz-snapshotter/estargz v0.18.2
 )
 
-require github.com/golang/groupcache v0.0.0-20241129210726-2c02b8208cf8 // indirect
+require (
+	github.com/golang/groupcache v0.0.0-20241129210726-2c02b8208cf8 // indirect
+	github.com/klauspost/compress v1.18.6 // indirect
+	github.com/opencontainers/go-digest v1.0.0 // indirect
+	github.com/vbatts/tar-split v0.12.2 // indirect
+)
 
 replace github.com/containerd/stargz-snapshotter => /repo
 
